@@ -221,12 +221,12 @@ pub fn run_session(ctx: &Ctx, steps: &[Step], rep: &mut Report) -> Result<(), Vi
     let mut gos = 0usize;
     for (i, st) in steps.iter().enumerate() {
         eng.send(&st.position);
+        let t0 = eng.now();
         eng.send(&st.go);
         gos += 1;
         rep.eval(1);
         let pos = Pos::from_fen(&st.fen_after).unwrap();
         let deadline = Duration::from_millis(st.time_bound_ms.map_or(UNBOUNDED_DEADLINE_MS, |t| t + ALLOWANCE_MS));
-        let t0 = eng.now();
         let limit_class = st.classes.first().copied().unwrap_or("none");
         let ev = eng.wait_for(deadline, |e| (e.stream == Stream::Out && e.line.starts_with("bestmove")) || (e.stream == Stream::Err && uciproc::is_panic_line(&e.line)) || e.eof);
         match ev {
@@ -235,7 +235,7 @@ pub fn run_session(ctx: &Ctx, steps: &[Step], rep: &mut Report) -> Result<(), Vi
                 if pos.find_legal(&mv).is_none() {
                     return Err(fail("legal", format!("legal/illegal-bestmove/{limit_class}"), format!("go #{} '{}' at {}: bestmove {mv} is not legal", i + 1, st.go, st.fen_after), &eng));
                 }
-                let took = (e.t - t0).as_millis();
+                let took = e.t.saturating_sub(t0).as_millis();
                 rep.class_n("ms-to-bestmove(sum)", took as u64);
             }
             Some(e) if e.eof => {
